@@ -92,6 +92,9 @@ def _fault(rng):
             inner.append({'k': 'one', 'name': rf, 'q': rng.pick([0, 0, 0, 3]), 'a': rs})
     for _ in range(rng.pick([0, 0, 1, 2])):
         inner.insert(rng.randrange(len(inner) + 1), _unrelated(rng))
+    if rng.chance(0.1):
+        # a NONE- or ALL-qualified record of the fault's own code inside its window (it neither ends the window nor the scan)
+        inner.insert(rng.randrange(len(inner) + 1), {'k': 'raw', 'id': worlds.catalog()['ids']['MACH_vmfault'], 'q': rng.pick([0, 3]), 'a': list(e)})
     return {'k': 'sys', 'name': 'MACH_vmfault', 's': s, 'e': e, 'in': inner}
 
 
@@ -108,6 +111,14 @@ def _launch(rng, depth=0):
             inner.append({'k': 'one', 'name': 'DYLD_uuid_unmap_a', 'q': 0, 'a': list(m_['a'])})
     for _ in range(rng.pick([0, 0, 1, 2])):
         inner.insert(rng.randrange(len(inner) + 1), _unrelated(rng))
+    if rng.chance(0.1):
+        # an image record with a START qualifier and, later, one with an END qualifier (another image): both are nested records
+        a1 = worlds.op_imap(rng, worlds.draw_uuid(rng), base + rng.randrange(0, 1 << 16), shared=rng.chance(0.3))
+        a2 = worlds.op_imap(rng, worlds.draw_uuid(rng), base + rng.randrange(0, 1 << 16), shared=a1['name'].endswith('shared_cache_a'))
+        a1['q'], a2['q'] = 1, 2
+        i_ = rng.randrange(len(inner) + 1)
+        inner.insert(i_, a1)
+        inner.insert(rng.randrange(i_ + 1, len(inner) + 1), a2)
     if rng.chance(0.12):
         # an image unmapped during the launch that was mapped before it began (no map record of it in this window)
         um = worlds.op_imap(rng, worlds.draw_uuid(rng), base + rng.pick([0, 0x1000, 0x5000, rng.randrange(0, 1 << 20)]))
@@ -136,7 +147,7 @@ def _sample(rng, tid):
     rows = [[rng.randrange(1, 1 << 47) for _ in range(4)] for _ in range(nrows)]
     # (header flag words: any, none of the named bits, only bits nobody names, single named ones)
     uhdr = (rng.pick([rng.randrange(0, 512), rng.randrange(0, 512), 0, 0x200, 0x400, 0x100, 1, 2, 0x10, 0x20]),
-            rng.pick([4 * nrows, max(0, 4 * nrows - 2), 4 * nrows + 3, 0])) if rng.chance(0.6) else None
+            rng.pick([4 * nrows, max(0, 4 * nrows - 2), 4 * nrows + 3, 0, 0, rng.pick([1 << 63, (1 << 64) - 1, (1 << 32) + 1, 1 << 31])])) if rng.chance(0.6) else None
     extra = [_unrelated(rng) for _ in range(rng.pick([0, 0, 1, 2]))]
     if rng.chance(0.1):
         extra.append(_fault(rng))
